@@ -7,7 +7,7 @@
    The generated DFA hclsyntax/scan_tokens.go is tied to the model by
    differential testing only (harness/cmd/c14 + Lex/LexCheck.v). *)
 From HclV Require Import Base.Prelude Gen.TokenTypes Gen.UnicodeDerived
-  Lex.Scanner Lex.ScannerProofs Lex.Positions Lex.PositionsProofs Lex.HclLex Lex.HclLexProofs.
+  Lex.Scanner Lex.ScannerProofs Lex.Positions Lex.PositionsProofs Lex.HclLex Lex.HclLexProofs Lex.LexCheck.
 
 (* ---- (a) tiling: generic over ANY rule set, ANY start mode, ANY input ------------- *)
 
@@ -149,6 +149,19 @@ Theorem C14_walk_to_compose :
 Proof. exact walk_to_compose. Qed.
 Print Assumptions C14_walk_to_compose.
 
+(* The walk over the Start / End positions of every range of a parsed tree
+   (LexCheck.check_posat_node_cases; the positions are found by a reflective
+   walk over the real AST, node fields, computed ranges and diagnostic ranges):
+   when it accepts a list of positions, each one IS the canonical position of its
+   byte offset — line = 1 + line-break clusters before it, column = 1 + clusters
+   since the start of its line. *)
+Theorem C14_points_walk_pos_at :
+  forall (start : pos) (data gcs : list Z) (pts : list pos),
+  points_walk (mkWalk start data gcs) pts = true ->
+  Forall (fun p => pos_at is_nl_lexer start data gcs (p_byte p) = Some p) pts.
+Proof. exact points_walk_sound. Qed.
+Print Assumptions C14_points_walk_pos_at.
+
 (* RangeScanner.Scan (pos_scanner.go after 52c61bf / 6be209f). For any start
    position, any buffer b (whole file or fragment — all of b is scanned, the
    start position only offsets what is reported), any segmentation gcs of b in
@@ -221,4 +234,16 @@ Example C14_example :
             end) toks = true
   | _ => False
   end.
+Proof. vm_compute. split; reflexivity. Qed.
+
+(* points_walk accepts the node positions of  a = "é́${b}"  (attribute 1:1@0,
+   `=` 1:3@2, template 1:5@4 .. 1:12@15, the literal 1:6@5 .. 1:7@10 — one
+   5-byte cluster —, the variable 1:9@12 .. 1:10@13) and rejects a column that
+   counts the literal's bytes instead of its clusters. *)
+Example C14_points_example :
+  let data := [97; 32; 61; 32; 34; 101; 204; 129; 204; 163; 36; 123; 98; 125; 34] in
+  let gcs := [1; 1; 1; 1; 1; 5; 1; 1; 1; 1; 1] in
+  points_walk (mkWalk initial_pos data gcs)
+    [mkPos 1 1 0; mkPos 1 2 1; mkPos 1 3 2; mkPos 1 5 4; mkPos 1 6 5; mkPos 1 7 10; mkPos 1 9 12; mkPos 1 10 13; mkPos 1 12 15] = true /\
+  points_walk (mkWalk initial_pos data gcs) [mkPos 1 6 5; mkPos 1 11 10] = false.
 Proof. vm_compute. split; reflexivity. Qed.
